@@ -37,7 +37,7 @@ RULE = ("cases = generated message definitions x relocations (root / imported fi
 ASSUMPTIONS = ["send_signal(type) has no class in hand and leaves version 0 (allowed there only)",
                "an edit that collides in 32 bits has probability 2^-32 and is re-checked with a second edit before being reported"]
 REQUIRE = {"relocations_compared": 300, "edits_compared": 500, "frames_captured": 150, "subprocess_hash_sets": 4,
-           "resend_frames_captured": 20}
+           "resend_frames_captured": 20, "rebuilt_output_hashes_compared": 60}
 CASE_TIMEOUT = 240
 TYPES = ["int32", "double", "char", "uint8", "int16", "float", "int64", "uint16", "byte", "unsigned int", "long long"]
 
@@ -189,6 +189,9 @@ def gen_cases(tier, seed):
     cases += [{"mode": "proc", "seed": rng.getrandbits(40)} for _ in range(nproc)]
     for i in range(4 if tier == "quick" else 60):
         cases.append({"mode": "resend", "seed": rng.getrandbits(40), "tc": i % 2 == 1})
+    for i in range(6 if tier == "quick" else 72):
+        cases.append({"mode": "rebuild", "seed": rng.getrandbits(40), "variant": ["subdir", "plain", "imported", "diamond", "subdir", "importer_of_consts"][i % 6],
+                      "cli": i % 4 != 3})
     for i in range(nsend):
         cases.append({"mode": "send", "seed": rng.getrandbits(40), "tc": i % 2 == 1, "chunk": i // 2, "nchunks": max(1, nsend // 2)})
     return cases
@@ -290,9 +293,66 @@ def run_case(case, tier):
             return res
         if case["mode"] == "resend":
             return run_resend(case, res, rng, work)
+        if case["mode"] == "rebuild":
+            return run_rebuild(case, res, rng, work)
         return run_send(case, res)
     finally:
         shutil.rmtree(work, ignore_errors=True)
+
+
+def run_rebuild(case, res, rng, work):
+    """one project directory rebuilt in place: after every edit of a definition file (in the root file, in an imported
+    file beside it or in an imported file in another directory) the project is compiled again into the output directory
+    that already holds the previous build. The hashes in every output must be those of the definition text as it is
+    now. The last step puts the first revision back with its old modification time (cp -p, rsync -t, an unpacked
+    archive), so the definition files are then all older than the outputs of the previous build."""
+    V, C = res["violations"], res["counters"]
+    while True:
+        t = gen_target(rng)
+        if all(ord(ch) < 128 for ch in t["name"] + "".join(f[0] for f in t["fields"])):
+            break
+    variant = case["variant"]
+    res["sig"] = sig_of([t, variant, case["cli"]])
+    res["nontrivial"] = True
+    steps = [("original", t)] + rng.sample(edits(t, rng), 2) + [("first_revision_restored_with_its_old_mtime", t)]
+    src, out = work / "src", work / "out"
+    out.mkdir(parents=True)
+    sc = work / "load"
+    sc.mkdir()
+    first_mtime = {}
+    for n, (kind, e) in enumerate(steps):
+        files, root = surround(e, rng, variant)
+        for rel, text in files.items():
+            q = src / rel
+            q.parent.mkdir(parents=True, exist_ok=True)
+            if not q.exists() or q.read_text() != text:
+                q.write_text(text)
+                if n == 0:
+                    first_mtime[rel] = q.stat().st_mtime_ns
+                elif n == len(steps) - 1:
+                    os.utime(q, ns=(first_mtime[rel], first_mtime[rel]))
+        want = int(parse_hash(files, root, e["name"], work / "ref"), 16)
+        rc, text = L.compile_closure(src / root, out, name="out", langs=("py", "c", "js", "mat", "combined"), cli=case["cli"])
+        if rc != 0:
+            V.append({"mech": "variant_rejected", "detail": f"rebuild step {kind}: {text[-200:]}"})
+            return res
+        nm = e["name"]
+        py = L.load_py(out / "out.py", sc)
+        c = L.load_c(out / "out.h", CR.prelude_path(), sc)
+        js = L.load_js(out / "out.js", sc)
+        mat = L.load_matlab(out / "out.m")
+        got = {"python": py["classes"].get("MDF_" + nm, {}).get("type_hash") if py.get("ok") else None,
+               "c": c.get("defines", {}).get("HASH_" + nm) if c.get("ok") else None,
+               "javascript": int(js["HASH"][nm], 16) if js.get("ok") and nm in js.get("HASH", {}) else None,
+               "matlab": (lambda v: int(v["v"], 16) if v and "v" in v else None)(L.ml_value(mat["env"], ["hash", nm])) if mat.get("ok") else None}
+        for lang, g in got.items():
+            C["rebuilt_output_hashes_compared"] = C.get("rebuilt_output_hashes_compared", 0) + 1
+            if g != want:
+                V.append({"mech": f"stale_hash_after_rebuild_in_place:{'restored' if n == len(steps) - 1 else 'edit'}",
+                          "detail": f"placement {variant}, step {n} ({kind}), cli={case['cli']}: {lang} output says "
+                                    f"{g if g is None else hex(g)} for {nm}, the definition text now hashes to {want:#x}"})
+        res["sets"].setdefault("rebuild_steps", []).append(f"{variant}:{kind if n in (0, len(steps) - 1) else 'edit'}")
+    return res
 
 
 def run_resend(case, res, rng, work):
